@@ -569,11 +569,11 @@ func main() {
 	}
 
 	var (
-		runs, transitions, exact, moduloChunks, nontrivial, snapshots, skipRuns, recordedRuns int64
-		wireBytes                                                                             int64
-		statesMu                                                                              sync.Mutex
-		perFamily                                                                             = map[string]int64{}
-		violCount                                                                             int64
+		runs, transitions, exact, moduloChunks, nontrivial, snapshots, skipRuns, recordedRuns, skipSeq int64
+		wireBytes                                                                                      int64
+		statesMu                                                                                       sync.Mutex
+		perFamily                                                                                      = map[string]int64{}
+		violCount                                                                                      int64
 	)
 	workerCh := make(chan *worker, 256)
 	getWorker := func() *worker {
@@ -696,30 +696,53 @@ func main() {
 				}
 			}
 
-			// skip-logging: nothing recorded, message untouched
+			// skip-logging: nothing recorded, message untouched. The mark must survive every other context
+			// operation in either order (histories over {SkipLogging, SkipRoundTrip, APIRequest, Set}); the full set of
+			// histories is run for every 16th message (the flags do not depend on the message), "skip" alone for all.
 			if v.Skips && (only == nil || only.Skip) {
-				rc := replayCase{Spec: spec, Variant: v.Name, Mode: readModes[0].Name, Skip: true, Part: "skip"}
-				req, res, ctx, remove := parse()
-				ctx.SkipLogging()
-				a := w.apply(v, m, req, res, ctx)
-				atomic.AddInt64(&transitions, int64(a.calls)+1)
-				atomic.AddInt64(&skipRuns, 1)
-				got := serialise(readModes[0], firstReq(isReq, req), secondRes(isReq, res))
-				switch {
-				case a.panicked != "":
-					violate(fmt.Sprintf("%s:%s:skip_logging:panic", v.Family, spec.Kind), fmt.Sprintf("%s with %s (skip-logging set): panic %s", spec, v.Name, a.panicked), rc)
-				case a.err != nil:
-					violate(fmt.Sprintf("%s:%s:skip_logging:logger_error", v.Family, spec.Kind), fmt.Sprintf("%s with %s (skip-logging set): error %v", spec, v.Name, a.err), rc)
-				default:
-					if n := a.recorded(); n > 0 {
-						violate(fmt.Sprintf("%s:%s:skip_logging:recorded", skipName(v), spec.Kind),
-							fmt.Sprintf("%s with %s: the context is marked skip-logging, yet %d record(s) were produced", spec, v.Name, n), rc)
-					}
-					if sym, detail := diff(got, twins[0]); sym != "" {
-						violate(fmt.Sprintf("%s:%s:%s:%s", v.Family, spec.Kind, framingTag(m), sym), fmt.Sprintf("%s with %s (skip-logging set): %s", spec, v.Name, detail), rc)
-					}
+				histories := [][]string{{"skip"}}
+				if atomic.AddInt64(&skipSeq, 1)%16 == 1 {
+					histories = [][]string{{"skip"}, {"skip", "roundtrip"}, {"roundtrip", "skip"}, {"skip", "api"}, {"api", "skip"}, {"skip", "set"}, {"skip", "roundtrip", "api"}, {"api", "roundtrip", "skip"}, {"skip", "skip"}}
 				}
-				remove()
+				for _, hist := range histories {
+					rc := replayCase{Spec: spec, Variant: v.Name, Mode: readModes[0].Name, Skip: true, Part: "skip"}
+					req, res, ctx, remove := parse()
+					for _, h := range hist {
+						switch h {
+						case "skip":
+							ctx.SkipLogging()
+						case "roundtrip":
+							ctx.SkipRoundTrip()
+						case "api":
+							ctx.APIRequest()
+						case "set":
+							ctx.Set("k", "v")
+						}
+					}
+					htag := ""
+					if len(hist) > 1 {
+						htag = "(" + strings.Join(hist, ",") + ")"
+					}
+					a := w.apply(v, m, req, res, ctx)
+					atomic.AddInt64(&transitions, int64(a.calls)+1)
+					atomic.AddInt64(&skipRuns, 1)
+					got := serialise(readModes[0], firstReq(isReq, req), secondRes(isReq, res))
+					switch {
+					case a.panicked != "":
+						violate(fmt.Sprintf("%s:%s:skip_logging:panic", v.Family, spec.Kind), fmt.Sprintf("%s with %s (skip-logging set): panic %s", spec, v.Name, a.panicked), rc)
+					case a.err != nil:
+						violate(fmt.Sprintf("%s:%s:skip_logging:logger_error", v.Family, spec.Kind), fmt.Sprintf("%s with %s (skip-logging set): error %v", spec, v.Name, a.err), rc)
+					default:
+						if n := a.recorded(); n > 0 {
+							violate(fmt.Sprintf("%s:%s:skip_logging%s:recorded", skipName(v), spec.Kind, htag),
+								fmt.Sprintf("%s with %s: the context is marked skip-logging (context history %v), yet %d record(s) were produced", spec, v.Name, hist, n), rc)
+						}
+						if sym, detail := diff(got, twins[0]); sym != "" {
+							violate(fmt.Sprintf("%s:%s:%s:%s", v.Family, spec.Kind, framingTag(m), sym), fmt.Sprintf("%s with %s (skip-logging set): %s", spec, v.Name, detail), rc)
+						}
+					}
+					remove()
+				}
 			}
 
 			// the snapshot is a parseable message equal to the original
